@@ -7,7 +7,7 @@ from sa.engine.callgraph import calls_in, resolve_call
 from sa.engine.cfg import CFG
 from sa.engine.context import Ctx
 from sa.engine.guards import path_conditions
-from sa.engine.loader import AnalysisError, dotted, norm, short, walk_own
+from sa.engine.loader import AnalysisError, anorm, dotted, local_names, norm, short, walk_own
 from sa.engine.loops import LoopAnalysis
 from sa.engine.report import Finding, RuleReport
 from sa.rules.c14 import _may_raise
@@ -48,8 +48,9 @@ def rule_join(ctx: Ctx) -> RuleReport:
     rep = RuleReport("C03-JOIN", "get_full_text() == strip(newline-join(unit texts)) for the documented formats")
     dt = ctx.p.module(DT)
     helper = ctx.p.func(DT, "_join_unit_text")
-    hb = [norm(s) for s in helper.node.body]
-    if hb == ["return '\\n'.join((unit.get_text() for unit in units)).strip()"]:
+    hb = [anorm(s, helper.node) for s in helper.node.body if not (isinstance(s, ast.Expr) and isinstance(s.value, ast.Constant))]
+    prm = helper.node.args.args[0].arg if helper.node.args.args else "units"
+    if hb == [f"return '\\n'.join((v0.get_text() for v0 in {prm})).strip()"]:
         rep.ok({"_join_unit_text": "strip(newline-join(get_text))"})
     else:
         rep.fail(Finding("C03-JOIN", DT, helper.qual, " ; ".join(hb), "_join_unit_text is no longer the trimmed newline-join of the unit texts", line=helper.node.lineno))
@@ -73,7 +74,7 @@ def rule_join(ctx: Ctx) -> RuleReport:
                 passed = {k.arg: norm(k.value) for k in inner.keywords}
                 ok = all(passed.get(p) == p for p in params) and not inner.args
             # inlined form
-            if not ok and norm(call) in ("'\\n'.join((unit.get_text() for unit in self.iterate_units())).strip()",):
+            if not ok and anorm(call, g.node) in ("'\\n'.join((v0.get_text() for v0 in self.iterate_units())).strip()",):
                 ok = True
         if ok:
             rep.ok({"class": cname, "get_full_text": "_join_unit_text(self.iterate_units(<own parameters>))"})
@@ -164,7 +165,7 @@ def rule_num(ctx: Ctx) -> RuleReport:
             # conditional yields: only RTF's blank-page skip
             conds, opaque, _ = path_conditions(iu.node, _stmt_of(iu.node, y), terminals=("continue", "return", "break"))
             cs = {str(x) for x in conds} - {f"self.{coll}"}
-            allowed = {"page.strip()"} if cname == "RtfContent" else set()
+            allowed = {f"{elem}.strip()"} if cname == "RtfContent" else set()  # RTF: a blank page has no unit (its number is still consumed)
             if cs - allowed or opaque:
                 rep.fail(Finding("C03-NUM", DT, iu.qual, "yield if " + " and ".join(sorted(cs) + opaque), f"{cname} yields a unit only under `{' and '.join(sorted(cs) + opaque)}`: some source units get no unit", line=y.lineno))
             else:
@@ -201,8 +202,13 @@ def rule_num(ctx: Ctx) -> RuleReport:
                 rep.fail(Finding("C03-NUM", rel, fn, short(c, 80), f"the number handed to {callee} is not the index of enumerate(<source sequence>, start=1)", line=c.lineno))
     # EPUB: unconditional counter over the spine
     re_ = ctx.p.func(X + "epub_extractor.py", "read_epub")
-    loops = [l for l in walk_own(re_.node) if isinstance(l, ast.For) and norm(l.iter) == "ctx.spine"]
-    if loops and isinstance(loops[0].body[0], ast.AugAssign) and norm(loops[0].body[0]) == "chapter_number += 1" and any(norm(n) == "chapter_number = 0" for n in walk_own(re_.node) if isinstance(n, ast.Assign)):
+    loops = [l for l in walk_own(re_.node) if isinstance(l, ast.For) and isinstance(l.iter, ast.Attribute) and l.iter.attr == "spine"]
+    first = loops[0].body[0] if loops else None
+    ctr = first.target.id if isinstance(first, ast.AugAssign) and isinstance(first.target, ast.Name) and isinstance(first.op, ast.Add) and isinstance(first.value, ast.Constant) and first.value.value == 1 else None
+    zeroed = ctr is not None and any(isinstance(n, ast.Assign) and len(n.targets) == 1 and isinstance(n.targets[0], ast.Name) and n.targets[0].id == ctr and isinstance(n.value, ast.Constant) and n.value.value == 0 and n.lineno < loops[0].lineno for n in walk_own(re_.node))
+    other_writes = ctr is not None and [n for n in ast.walk(loops[0]) if isinstance(n, (ast.Assign, ast.AugAssign)) and n is not first and any(isinstance(t, ast.Name) and t.id == ctr for t in (n.targets if isinstance(n, ast.Assign) else [n.target]))]
+    used = ctr is not None and any(isinstance(c, ast.Call) and any(isinstance(a, ast.Name) and a.id == ctr for a in list(c.args) + [k.value for k in c.keywords]) for c in ast.walk(loops[0]))
+    if loops and ctr and zeroed and not other_writes and used:
         rep.ok({"epub": "chapter_number counts every spine item, first statement of the loop"})
     else:
         rep.fail(Finding("C03-NUM", X + "epub_extractor.py", "read_epub", "chapter_number", "EPUB chapter numbers are no longer an unconditional 1-based count of the spine items", line=re_.node.lineno))
@@ -230,22 +236,51 @@ def _stmt_of(fn, node):
 
 
 FILL_SITES = [
-    # (module, function, list variable that becomes the unit collection, what is enumerated)
-    (X + "pdf/pdf_extractor.py", "read_pdf", "pages"),
-    (X + "ms_modern/pptx_extractor.py", "read_pptx", "slides_result"),
-    (X + "open_office/odp_extractor.py", "read_odp", "slides"),
-    (X + "ms_modern/xlsx_extractor.py", "_read_content_from_workbook", "sheets"),
-    (X + "ms_legacy/xls_extractor.py", "_read_content", "sheets"),
-    (X + "open_office/ods_extractor.py", "read_ods", "sheets"),
-    (X + "ms_legacy/ppt_extractor.py", "_build_slides_from_text_blocks", "content.slides"),
+    # (module, function, role of the list that becomes the unit collection): ("kw", field) = the local passed as that keyword to the
+    # result constructor; ("ret",) = the local list the function returns; ("expr", text) = an attribute path on a parameter
+    (X + "pdf/pdf_extractor.py", "read_pdf", ("kw", "pages")),
+    (X + "ms_modern/pptx_extractor.py", "read_pptx", ("kw", "slides")),
+    (X + "open_office/odp_extractor.py", "read_odp", ("kw", "slides")),
+    (X + "ms_modern/xlsx_extractor.py", "_read_content_from_workbook", ("ret",)),
+    (X + "ms_legacy/xls_extractor.py", "_read_content", ("ret",)),
+    (X + "open_office/ods_extractor.py", "read_ods", ("kw", "sheets")),
+    (X + "ms_legacy/ppt_extractor.py", "_build_slides_from_text_blocks", ("expr", "content.slides")),
 ]
+
+
+def _role_var(f, role):
+    """The spelling, in this function, of the list that plays `role` (independent of how the local variable is named)."""
+    if role[0] == "expr":
+        return {role[1]}
+    out = set()
+    if role[0] == "kw":
+        for c in calls_in(f):
+            for k in c.keywords:
+                if k.arg == role[1] and isinstance(k.value, ast.Name):
+                    out.add(k.value.id)
+    else:
+        for n in walk_own(f.node):
+            if isinstance(n, ast.Return) and isinstance(n.value, ast.Name):
+                out.add(n.value.id)
+            elif isinstance(n, ast.Return) and isinstance(n.value, ast.Tuple):
+                out |= {e.id for e in n.value.elts if isinstance(e, ast.Name)}
+    # keep only names that are lists filled by append inside a loop
+    keep = set()
+    for nm in out:
+        if any(isinstance(c.func, ast.Attribute) and c.func.attr == "append" and norm(c.func.value) == nm for c in calls_in(f)):
+            keep.add(nm)
+    return keep
 
 
 def rule_fill(ctx: Ctx) -> RuleReport:
     rep = RuleReport("C03-FILL", "the loop that fills a unit collection appends exactly one element per source element on every path")
-    for rel, fn, var in FILL_SITES:
+    for rel, fn, role in FILL_SITES:
         f = ctx.p.func(rel, fn)
         rep.unit(f.key)
+        names = _role_var(f, role)
+        if len(names) != 1:
+            raise AnalysisError(f"C03-FILL: cannot identify the unit collection ({role}) in {f.key}: candidates {sorted(names)}")
+        var = next(iter(names))
         apps = [c for c in calls_in(f) if isinstance(c.func, ast.Attribute) and c.func.attr == "append" and norm(c.func.value) == var]
         if not apps:
             raise AnalysisError(f"C03-FILL: no `{var}.append(...)` in {f.key}")
@@ -298,19 +333,42 @@ def rule_filt(ctx: Ctx) -> RuleReport:
     PPT = X + "ms_legacy/ppt_extractor.py"
     f = ctx.p.func(PPT, "_parse_slide_list_container")
     rep.unit(f.key)
-    apps = sorted([c for c in calls_in(f) if isinstance(c.func, ast.Attribute) and c.func.attr == "append" and norm(c.func.value) == "slides"], key=lambda c: c.lineno)
+    rv = _role_var(f, ("ret",))
+    if len(rv) != 1:
+        raise AnalysisError(f"C03-FILT: cannot identify the slide list returned by _parse_slide_list_container ({sorted(rv)})")
+    lst = next(iter(rv))
+    apps = sorted([c for c in calls_in(f) if isinstance(c.func, ast.Attribute) and c.func.attr == "append" and norm(c.func.value) == lst], key=lambda c: c.lineno)
     if not apps:
-        raise AnalysisError("C03-FILT: slides.append(...) vanished from _parse_slide_list_container")
+        raise AnalysisError("C03-FILT: the slide list is no longer filled by append in _parse_slide_list_container")
+    # locals that hold what was read for the current slide: the appended value and every flag set where text is collected into it
+    locs = local_names(f.node)
+    appended = {a.args[0].id for a in apps if a.args and isinstance(a.args[0], ast.Name)}
+    text_vars = set(appended)
+    for n in walk_own(f.node):
+        if isinstance(n, ast.If) or isinstance(n, (ast.For, ast.While)):
+            continue
+    for blk in [n for n in ast.walk(f.node) if isinstance(n, (ast.If, ast.For, ast.While, ast.FunctionDef))]:
+        body = getattr(blk, "body", [])
+        if any(isinstance(x, ast.Call) and isinstance(x.func, ast.Attribute) and x.func.attr in ("append", "extend") and isinstance(x.func.value, ast.Name) and x.func.value.id in appended for st in body for x in ast.walk(st)):
+            for st in body:
+                if isinstance(st, ast.Assign) and len(st.targets) == 1 and isinstance(st.targets[0], ast.Name) and isinstance(st.value, ast.Constant) and st.value.value is True:
+                    text_vars.add(st.targets[0].id)  # a flag raised exactly where slide text is stored
     content_dependent = []
     for a in apps:
         conds, opaque, _ = path_conditions(f.node, _stmt_of(f.node, a))
-        cs = {str(x) for x in conds}
-        dep = {c for c in cs if "current_slide_text" in c or "any_text" in c}
+        dep = []
+        for x in conds:
+            try:
+                e = ast.parse(str(x), mode="eval")
+            except SyntaxError:
+                continue
+            if {n.id for n in ast.walk(e) if isinstance(n, ast.Name)} & text_vars:
+                dep.append(str(x))
         if dep:
             content_dependent.append((a, sorted(dep)))
     if content_dependent:
         a, dep = content_dependent[0]
-        rep.fail(Finding("C03-FILT", PPT, f.qual, "slides.append(current_slide_text) if " + " and ".join(dep), f"a slide is kept only under {dep}: once any slide has text, text-less slides are dropped from the list and _build_slides_from_text_blocks numbers the remaining ones consecutively, so every later slide gets a smaller number than its source position", line=a.lineno))
+        rep.fail(Finding("C03-FILT", PPT, f.qual, "slide kept only if its text is non-empty", f"a slide is kept only under {dep}: once any slide has text, text-less slides are dropped from the list and _build_slides_from_text_blocks numbers the remaining ones consecutively, so every later slide gets a smaller number than its source position", line=a.lineno))
     else:
         rep.ok({"_parse_slide_list_container": "every SlidePersistAtom boundary yields one entry"})
     # RTF: pages are numbered by position, so flush_page must record every page, empty or not
